@@ -119,7 +119,15 @@ func runC41(c *Ctx) {
 			w := f.MustPrecede(isLookup, nil, isWrite)
 			c.Check(w == nil, "store-write@"+name+"/lookup≺write", "every store write is preceded by a tombstone lookup of the same key", u.Where(c.P), f.describe(w))
 			w = f.AfterEdgesMayReach(present, isLookup, nil, isWrite)
-			c.Check(w == nil && len(present) > 0, "store-write@"+name+"/tombstoned⇏write", "the store write is unreachable from the edge on which the key is tombstoned", u.Where(c.P), f.describe(w))
+			absent := map[Edge]bool{}
+			for _, a := range lookups {
+				_, okObj, _, _ := commaOkLookup(info, a.N, tombs)
+				for e := range f.CondEdges(func(e ast.Expr) bool { id, ok := e.(*ast.Ident); return ok && info.ObjectOf(id) == okObj }, false) {
+					absent[e] = true
+				}
+			}
+			wAbs := f.search(searchSpec{avoidEdges: absent, target: isWrite})
+			c.Check(w == nil && len(present) > 0 && wAbs == nil && len(absent) > 0, "store-write@"+name+"/tombstoned⇏write", "the store write is reachable only over the edge on which the key was found NOT tombstoned (and is unreachable from the tombstoned edge)", u.Where(c.P), f.describe(w)+f.describe(wAbs))
 			// same key
 			sameKey := true
 			for _, wa := range writes {
